@@ -8,6 +8,7 @@ No hash function occurs here; `Lemmas/EventKeys` transfers this to node keys und
 -/
 import Verif.Lemmas.MptStoreEvents
 import Verif.Lemmas.MptBasic
+import Verif.Lemmas.MptDelete
 namespace Verif.MptStore
 open Verif.Mpt
 
@@ -421,5 +422,295 @@ theorem insertE_ok (v : Nat) (b : Bytes) (t : Node) :
               exact Or.inr (Or.inl (by simp [h])))
       rw [extRestE_eq]
       simpa using this
+
+/-! ### delete -/
+
+/-- what is proved about the result of `deleteE` / `liftE` -/
+def DelOk (L : Ref → Prop) (pre : List Nib) (res : DRes × List Event) : Prop :=
+  match res.1 with
+  | .node n => OpOk L pre res.2 n
+  | .removed => OpOk L pre res.2 .empty
+  | _ => True
+
+theorem wfn_of_deleteE {v : Nat} {t : Node} {pre p : List Nib} {n : Node} {es : List Event} (hw : WF t)
+    (h : deleteE v t pre p = (.node n, es)) : WFn n := by
+  have h1 := deleteE_fst v t pre p
+  rw [h] at h1
+  have h2 := delete_spec v t p hw
+  rw [← h1] at h2
+  exact h2.2.1
+
+theorem liftE_ok (v : Nat) (old : Ref) (pre : List Nib) (i : Nib) (n : Node) (L : Ref → Prop)
+    (hold : L old) (hpos : old.pos = pre) (hw : WF n) (hL : ∀ r ∈ refs n (pre ++ [i]), L r) :
+    DelOk L pre (liftE v old pre i n) := by
+  have hne : ∀ r ∈ refs n (pre ++ [i]), r ≠ old := by
+    intro r hr e
+    exact pos_ne_of_prefix (q := [i]) (by simp) (refs_pos _ _ r hr) (by rw [e, hpos])
+  have hframe : ∀ (o : Ref), pre <+: o.pos → ∀ r, L r → ¬ pre <+: r.pos → r ≠ o :=
+    fun o ho r _ hnp => ne_of_not_prefix ho hnp
+  have hchild : pre <+: pre ++ [i] := List.prefix_append _ _
+  have holdp : pre <+: old.pos := by rw [hpos]; exact List.prefix_refl _
+  cases n with
+  | empty => simp [DelOk, liftE]
+  | leaf o p lv =>
+    have hc : L ⟨pre ++ [i], .leaf o p lv⟩ := hL _ (by simp [refs])
+    have hnc : old ≠ ⟨pre ++ [i], .leaf o p lv⟩ := fun e => hne _ (by simp [refs]) e.symm
+    simp only [DelOk, liftE]
+    refine ⟨by simp [DiscR, EvOk, liveR, hc, hold, hnc], ?_, ?_⟩
+    · intro r hr; rw [mem_refs_leaf] at hr; subst hr; simp [liveRunR, liveR]
+    · intro r hLr hnp
+      simp only [liveRunR, liveR]
+      exact Or.inr ⟨⟨hLr, hframe ⟨pre ++ [i], _⟩ hchild r hLr hnp⟩, hframe old holdp r hLr hnp⟩
+  | ext o p c =>
+    have hc : L ⟨pre ++ [i], .ext o p c⟩ := hL _ (by simp [refs])
+    have hp : p ≠ [] := (WFn_of_WF_ext hw).1
+    have hnc : old ≠ ⟨pre ++ [i], .ext o p c⟩ := fun e => hne _ (by simp [refs]) e.symm
+    simp only [DelOk, liftE]
+    refine ⟨by simp [DiscR, EvOk, liveR, hc, hold, hnc], ?_, ?_⟩
+    · intro r hr
+      rw [mem_refs_ext] at hr
+      simp only [liveRunR, liveR]
+      rcases hr with hr | hr
+      · exact Or.inl hr
+      · have hr' : r ∈ refs c (pre ++ [i] ++ p) := by simpa [List.append_assoc] using hr
+        have hm : r ∈ refs (.ext o p c) (pre ++ [i]) := mem_refs_ext.mpr (Or.inr hr')
+        refine Or.inr ⟨⟨hL r hm, ?_⟩, hne r hm⟩
+        intro e
+        exact pos_ne_of_prefix hp (refs_pos _ _ r hr') (by rw [e])
+    · intro r hLr hnp
+      simp only [liveRunR, liveR]
+      exact Or.inr ⟨⟨hLr, hframe ⟨pre ++ [i], _⟩ hchild r hLr hnp⟩, hframe old holdp r hLr hnp⟩
+  | full o ch val =>
+    simp only [DelOk, liftE]
+    refine ⟨by simp [DiscR, EvOk, hold], ?_, ?_⟩
+    · intro r hr
+      rw [mem_refs_ext] at hr
+      simp only [liveRunR, liveR]
+      rcases hr with hr | hr
+      · exact Or.inl hr
+      · exact Or.inr ⟨hL r hr, hne r hr⟩
+    · intro r hLr hnp
+      simp only [liveRunR, liveR]
+      exact Or.inr ⟨hLr, hframe old holdp r hLr hnp⟩
+
+theorem liftFirstE_ok (v : Nat) (old : Ref) (pre : List Nib) (ch : Nib → Node) (L : Ref → Prop)
+    (hold : L old) (hpos : old.pos = pre) (hw : ∀ i, WF (ch i)) (hL : ∀ i, ∀ r ∈ refs (ch i) (pre ++ [i]), L r) :
+    DelOk L pre (liftFirstE v old pre ch) := by
+  simp only [liftFirstE]
+  split
+  · rename_i i _
+    exact liftE_ok v old pre i (ch i) L hold hpos (hw i) (hL i)
+  · simp [DelOk]
+
+/-- replacing the node at `pre` by a new node whose proper sub-nodes are all live -/
+theorem replace_ok (old new : Ref) (pre : List Nib) (t' : Node) (L : Ref → Prop) (hold : L old) (hpos : old.pos = pre)
+    (hcov : ∀ r ∈ refs t' pre, r = new ∨ (L r ∧ r ≠ old)) : OpOk L pre [.put (some old) new] t' := by
+  refine ⟨by simp [DiscR, EvOk, hold], ?_, ?_⟩
+  · intro r hr; simp only [liveRunR, liveR]; exact hcov r hr
+  · intro r hLr hnp
+    simp only [liveRunR, liveR]
+    exact Or.inr ⟨hLr, ne_of_not_prefix (by rw [hpos]; exact List.prefix_refl _) hnp⟩
+
+/-- sequencing: an operation below `pre ++ q` followed by events justified in the resulting live set -/
+theorem opOk_append {L : Ref → Prop} {pre : List Nib} {es₁ es₂ : List Event} {t' : Node}
+    (hd : DiscR L es₁) (h2 : OpOk (liveRunR L es₁) pre es₂ t')
+    (hf : ∀ r, L r → ¬ pre <+: r.pos → liveRunR L es₁ r) : OpOk L pre (es₁ ++ es₂) t' := by
+  refine ⟨(discR_append _ _ _).mpr ⟨hd, h2.1⟩, ?_, ?_⟩
+  · intro r hr; rw [liveRunR_append]; exact h2.2.1 r hr
+  · intro r hLr hnp; rw [liveRunR_append]; exact h2.2.2 r (hf r hLr hnp) hnp
+
+theorem deleteE_ok (v : Nat) (t : Node) :
+    ∀ (pre p : List Nib) (L : Ref → Prop), WF t → (∀ r ∈ refs t pre, L r) → DelOk L pre (deleteE v t pre p) := by
+  induction t with
+  | empty => intro pre p L _ _; simp [DelOk, deleteE]
+  | leaf o lp lv =>
+    intro pre p L _ hL
+    have hold : L ⟨pre, .leaf o lp lv⟩ := hL _ (by simp [refs])
+    simp only [deleteE]
+    split
+    · simp only [DelOk]
+      refine ⟨by simp [DiscR, EvOk, hold], by simp [refs], ?_⟩
+      intro r hLr hnp
+      simp only [liveRunR, liveR]
+      exact ⟨hLr, ne_of_not_prefix (o := ⟨pre, .leaf o lp lv⟩) (List.prefix_refl _) hnp⟩
+    · simp [DelOk]
+  | full o ch val ih =>
+    intro pre p L hw hL
+    have hold : L ⟨pre, .full o ch val⟩ := hL _ (by simp [refs])
+    have hLc : ∀ i, ∀ r ∈ refs (ch i) (pre ++ [i]), L r := fun i r hr => hL r (mem_refs_full.mpr (Or.inr ⟨i, hr⟩))
+    have hnec : ∀ i, ∀ r ∈ refs (ch i) (pre ++ [i]), r ≠ ⟨pre, .full o ch val⟩ := by
+      intro i r hr e
+      exact pos_ne_of_prefix (q := [i]) (by simp) (refs_pos _ _ r hr) (by rw [e])
+    cases p with
+    | nil =>
+      simp only [deleteE]
+      cases val with
+      | none => simp [DelOk]
+      | some bv =>
+        simp only
+        split
+        · exact liftFirstE_ok v _ pre ch L hold rfl (WF_child hw) hLc
+        · simp only [DelOk]
+          apply replace_ok _ _ pre _ L hold rfl
+          intro r hr
+          rw [mem_refs_full] at hr
+          rcases hr with hr | ⟨i, hr⟩
+          · exact Or.inl hr
+          · exact Or.inr ⟨hLc i r hr, hnec i r hr⟩
+    | cons x pr =>
+      simp only [deleteE]
+      have hrec := ih x (pre ++ [x]) pr L (WF_child hw x) (hLc x)
+      cases hE : deleteE v (ch x) (pre ++ [x]) pr with
+      | mk res es =>
+        rw [hE] at hrec
+        have hnpold : ¬ pre ++ [x] <+: (⟨pre, .full o ch val⟩ : Ref).pos := by
+          intro h
+          have := h.length_le
+          simp at this
+          omega
+        have hsib : ∀ i, i ≠ x → ∀ r ∈ refs (ch i) (pre ++ [i]), ¬ pre ++ [x] <+: r.pos := by
+          intro i hi r hr hp
+          exact hi (snoc_prefix_eq (refs_pos _ _ r hr) hp)
+        cases res with
+        | notPresent => simp [DelOk]
+        | panic => simp [DelOk]
+        | node c' =>
+          simp only [DelOk] at hrec ⊢
+          obtain ⟨hd, hc, hf⟩ := hrec
+          apply opOk_append hd _ (fun r hLr hnp => hf r hLr (not_prefix_of_not_prefix hnp))
+          apply replace_ok _ _ pre _ _ (hf _ hold hnpold) rfl
+          intro r hr
+          rw [mem_refs_full] at hr
+          rcases hr with hr | ⟨i, hr⟩
+          · exact Or.inl hr
+          · by_cases e : i = x
+            · subst e
+              simp only [upd_same] at hr
+              refine Or.inr ⟨hc r hr, ?_⟩
+              intro e
+              exact pos_ne_of_prefix (q := [i]) (by simp) (refs_pos _ _ r hr) (by rw [e])
+            · rw [upd_other _ _ _ _ e] at hr
+              exact Or.inr ⟨hf r (hLc i r hr) (hsib i e r hr), hnec i r hr⟩
+        | removed =>
+          simp only [DelOk] at hrec
+          obtain ⟨hd, _, hf⟩ := hrec
+          have hold1 := hf _ hold hnpold
+          have hframe1 : ∀ r, L r → ¬ pre <+: r.pos → liveRunR L es r :=
+            fun r hLr hnp => hf r hLr (not_prefix_of_not_prefix hnp)
+          have hsib1 : ∀ i, ∀ r ∈ refs (upd ch x .empty i) (pre ++ [i]), liveRunR L es r ∧ r ≠ ⟨pre, .full o ch val⟩ := by
+            intro i r hr
+            by_cases e : i = x
+            · subst e; simp [refs] at hr
+            · rw [upd_other _ _ _ _ e] at hr
+              exact ⟨hf r (hLc i r hr) (hsib i e r hr), hnec i r hr⟩
+          simp only
+          split
+          · cases val with
+            | none =>
+              simp only [DelOk]
+              exact ⟨hd, by simp [refs], hframe1⟩
+            | some bv =>
+              simp only [DelOk]
+              apply opOk_append hd _ hframe1
+              apply replace_ok _ _ pre _ _ hold1 rfl
+              intro r hr
+              rw [mem_refs_leaf] at hr
+              exact Or.inl hr
+          · split
+            · have hl := liftFirstE_ok v ⟨pre, .full o ch val⟩ pre (upd ch x .empty) (liveRunR L es) hold1 rfl
+                (by
+                  intro i
+                  by_cases e : i = x
+                  · subst e; simp [WF, Node.isEmpty]
+                  · rw [upd_other _ _ _ _ e]; exact WF_child hw i)
+                (fun i r hr => (hsib1 i r hr).1)
+              cases hl2 : liftFirstE v ⟨pre, .full o ch val⟩ pre (upd ch x .empty) with
+              | mk res2 es2 =>
+                rw [hl2] at hl
+                cases res2 with
+                | notPresent => simp [DelOk]
+                | panic => simp [DelOk]
+                | node n2 => simp only [DelOk] at hl ⊢; exact opOk_append hd hl hframe1
+                | removed => simp only [DelOk] at hl ⊢; exact opOk_append hd hl hframe1
+            · simp only [DelOk]
+              apply opOk_append hd _ hframe1
+              apply replace_ok _ _ pre _ _ hold1 rfl
+              intro r hr
+              rw [mem_refs_full] at hr
+              rcases hr with hr | ⟨i, hr⟩
+              · exact Or.inl hr
+              · exact Or.inr (hsib1 i r hr)
+  | ext o ep c ih =>
+    intro pre p L hw hL
+    have hold : L ⟨pre, .ext o ep c⟩ := hL _ (by simp [refs])
+    have hwn := WFn_of_WF_ext hw
+    simp only [deleteE]
+    rcases hs : splitCommon p ep with ⟨cm, p', er⟩
+    cases er with
+    | cons y er' => simp [DelOk]
+    | nil =>
+      simp only
+      have hrec := ih (pre ++ ep) p' L (Or.inr hwn.2.2) (fun r hr => hL r (mem_refs_ext.mpr (Or.inr hr)))
+      cases hE : deleteE v c (pre ++ ep) p' with
+      | mk res es =>
+        rw [hE] at hrec
+        have hnpold : ¬ pre ++ ep <+: (⟨pre, .ext o ep c⟩ : Ref).pos := fun h => pos_ne_of_prefix hwn.1 h rfl
+        cases res with
+        | notPresent => simp [DelOk]
+        | panic => simp [DelOk]
+        | removed => simp [DelOk]
+        | node n =>
+          have hwn' : WFn n := wfn_of_deleteE (Or.inr hwn.2.2) hE
+          simp only [DelOk] at hrec
+          obtain ⟨hd, hc, hf⟩ := hrec
+          have hold1 := hf _ hold hnpold
+          have hframe1 : ∀ r, L r → ¬ pre <+: r.pos → liveRunR L es r :=
+            fun r hLr hnp => hf r hLr (not_prefix_of_not_prefix hnp)
+          have hneold : ∀ r ∈ refs n (pre ++ ep), r ≠ ⟨pre, .ext o ep c⟩ := by
+            intro r hr e
+            exact pos_ne_of_prefix hwn.1 (refs_pos _ _ r hr) (by rw [e])
+          cases n with
+          | empty => simp [DelOk]
+          | leaf o2 lp lv =>
+            simp only [DelOk]
+            apply opOk_append hd _ hframe1
+            have hroot : liveRunR L es ⟨pre ++ ep, .leaf o2 lp lv⟩ := hc _ (by simp [refs])
+            have hnc : (⟨pre, .ext o ep c⟩ : Ref) ≠ ⟨pre ++ ep, .leaf o2 lp lv⟩ := fun e => hneold _ (by simp [refs]) e.symm
+            refine ⟨by simp [DiscR, EvOk, liveR, hroot, hold1, hnc], ?_, ?_⟩
+            · intro r hr; rw [mem_refs_leaf] at hr; subst hr; simp [liveRunR, liveR]
+            · intro r hLr hnp
+              simp only [liveRunR, liveR]
+              exact Or.inr ⟨⟨hLr, ne_of_not_prefix (o := ⟨pre ++ ep, _⟩) (List.prefix_append _ _) hnp⟩,
+                ne_of_not_prefix (o := ⟨pre, .ext o ep c⟩) (List.prefix_refl _) hnp⟩
+          | ext o2 p2 c2 =>
+            simp only [DelOk]
+            apply opOk_append hd _ hframe1
+            have hroot : liveRunR L es ⟨pre ++ ep, .ext o2 p2 c2⟩ := hc _ (by simp [refs])
+            have hp2 : p2 ≠ [] := hwn'.1
+            have hnc : (⟨pre, .ext o ep c⟩ : Ref) ≠ ⟨pre ++ ep, .ext o2 p2 c2⟩ := fun e => hneold _ (by simp [refs]) e.symm
+            refine ⟨by simp [DiscR, EvOk, liveR, hroot, hold1, hnc], ?_, ?_⟩
+            · intro r hr
+              rw [mem_refs_ext] at hr
+              simp only [liveRunR, liveR]
+              rcases hr with hr | hr
+              · exact Or.inl hr
+              · have hr' : r ∈ refs c2 (pre ++ ep ++ p2) := by simpa [List.append_assoc] using hr
+                have hm : r ∈ refs (.ext o2 p2 c2) (pre ++ ep) := mem_refs_ext.mpr (Or.inr hr')
+                refine Or.inr ⟨⟨hc r hm, ?_⟩, hneold r hm⟩
+                intro e
+                exact pos_ne_of_prefix hp2 (refs_pos _ _ r hr') (by rw [e])
+            · intro r hLr hnp
+              simp only [liveRunR, liveR]
+              exact Or.inr ⟨⟨hLr, ne_of_not_prefix (o := ⟨pre ++ ep, _⟩) (List.prefix_append _ _) hnp⟩,
+                ne_of_not_prefix (o := ⟨pre, .ext o ep c⟩) (List.prefix_refl _) hnp⟩
+          | full o2 ch2 val2 =>
+            simp only [DelOk]
+            apply opOk_append hd _ hframe1
+            apply replace_ok _ _ pre _ _ hold1 rfl
+            intro r hr
+            rw [mem_refs_ext] at hr
+            rcases hr with hr | hr
+            · exact Or.inl hr
+            · exact Or.inr ⟨hc r hr, hneold r hr⟩
 
 end Verif.MptStore
